@@ -36,6 +36,9 @@ def shards(tier, seed):
             out.append(("toy_%d_%d_%d_%d" % (t.curve.key() + (i,)), dict(kind="toy", key=t.curve.key(), part=i, parts=parts, ndig=32 if q else 256)))
     for t in sel[:: 2 if q else 1]:
         out.append(("toyL_%d_%d_%d" % t.curve.key(), dict(kind="toy", key=t.curve.key(), part=0, parts=2 if q else 1, ndig=16 if q else 64, legacy_gen=True)))
+    out.append(("child_opt_toy", dict(kind="toy", key=sel[0].curve.key(), part=0, parts=4, ndig=16, _pyopt="opt+hashseed")))
+    out.append(("child_opt_prod", dict(kind="prod", cname="SECP112r2", rounds=1, _pyopt="opt")))
+    out.append(("child_opt_enc", dict(kind="enc", cname="NIST192p", rounds=1, _pyopt="opt+hashseed")))
     for c in lib.pick_curves(tier, seed, extra=3):
         out.append(("prod_%s" % c.name, dict(kind="prod", cname=c.name, rounds=2 if q else 12)))
         out.append(("enc_%s" % c.name, dict(kind="enc", cname=c.name, rounds=1 if q else 6)))
